@@ -11,9 +11,9 @@ pub struct WorldI;
 
 fn gen_meta(rng: &mut Rng, valid_bias: bool) -> MetaSpec {
     if valid_bias && rng.chance(5, 6) {
-        MetaSpec { name: rng.below(3) as u8, symbol: rng.below(3) as u8, decimals: *rng.pick(&[0u8, 1, 2, 3, 5]) }
+        MetaSpec { name: rng.below(NAMES.len() as u64 - 1) as u8, symbol: rng.below(SYMS.len() as u64 - 1) as u8, decimals: *rng.pick(&[0u8, 1, 2, 3, 5]) }
     } else {
-        MetaSpec { name: rng.below(4) as u8, symbol: rng.below(4) as u8, decimals: rng.below(8) as u8 }
+        MetaSpec { name: rng.below(NAMES.len() as u64) as u8, symbol: rng.below(SYMS.len() as u64) as u8, decimals: rng.below(8) as u8 }
     }
 }
 
